@@ -270,7 +270,11 @@ func build(tier string) []*explore.Scenario {
 		if p.Inbound+p.Connects+p.Listeners >= 3 || p.Connects >= 2 {
 			bb = b - 1 // many goroutines (one read loop per channel): one preemption less
 		}
-		scs = append(scs, scenario(p, bb))
+		sc := scenario(p, bb)
+		if p.Inbound+p.Connects+p.Listeners >= 3 {
+			sc.Shards = 8
+		}
+		scs = append(scs, sc)
 	}
 	if tier == "thorough" {
 		scs = append(scs, scenario(plan{Listeners: 2, Inbound: 2, Connects: 1}, 2), scenario(plan{Listeners: 2, Inbound: 1, LClose: true, Relisten: true}, 2))
